@@ -82,10 +82,11 @@ def h_list(E, kind, attempt):
         kw = dict(attempt_based_credit=lambda k: c)
     call_kw = dict(attempt=2) if attempt else {}
     with shadow(B, float=sym_float):
-        if kind == 'slg':
+        if kind in ('slg', 'slg-surplus', 'slg-short'):
             a = E.real('a', 0, 1)
             g = SingleListGrader(answers={'expect': list(exps), 'grade_decimal': a, 'msg': 'all'}, subgrader=TG(), **kw)
-            r = g(None, ','.join(stus), **call_kw)
+            sub = {'slg': stus, 'slg-surplus': stus + ['s0'], 'slg-short': stus[:1]}[kind]      # surplus: 3 submitted for 2 expected
+            r = g(None, ','.join(sub), **call_kw)
             _entry_ok(E, r)
         else:
             ordered = kind == 'list-ordered'
@@ -241,7 +242,7 @@ def harnesses(tier):
         add(h_cfn, 'cfn', dict(form=f), 'grade any real in [0,1]')
     for flag in (True, False):
         add(h_single_attempt, 'single_attempt', dict(msg=flag), 'grade, schedule value any reals in [0,1]; attempt in [-1,4]', expect_inconclusive=True)
-    for kind in ('slg', 'list-ordered', 'list-unordered', 'list-of-slg'):
+    for kind in ('slg', 'slg-surplus', 'slg-short', 'list-ordered', 'list-unordered', 'list-of-slg'):
         for att in (False, True):
             add(h_list, 'list', dict(kind=kind, attempt=att), '2 entries, credits in [0,1]')
     for cls in ('formula', 'numerical'):
